@@ -874,3 +874,18 @@ Theorem c12_source_stats_complete : forall (pc : pconfig) (sched : list task) (k
   stats (psh (prun src_program pc sched)) (leaf (pbase pc) k) <> None.
 Proof. exact src_stats_complete. Qed.
 Print Assumptions c12_source_stats_complete.
+
+(* the stats map at INSTRUCTION granularity (C12/ProgStats.v): `SymbolStats::default()`, the classification, the leaf name
+   and the insert are separate steps between which other tasks run (and the insert precedes the store into the slot);
+   every entry classifies the single answer of a module with that leaf name which the supplier was asked for exactly once *)
+From RM Require Import C12.ProgStats.
+Theorem c12_source_instr_stats_sound : forall (pc : pconfig) (ms : list task) (lf : nat) (o : outcome),
+  stats (psh (pmrun src_program pc ms)) lf = Some o ->
+  exists k, leaf (pbase pc) k = lf /\ o = outc (pbase pc) k /\ psupplier_calls (pmrun src_program pc ms) k = 1.
+Proof. exact src_pm_stats_sound. Qed.
+Print Assumptions c12_source_instr_stats_sound.
+
+Example c12_nonvacuous_instr_stats :
+  let s := pmrun src_program two_fill (repeat 0 12) in
+  stats (psh s) 0 <> None /\ value (psh s) 0 = None /\ calls (psh s) = [0].
+Proof. exact pm_stats_example. Qed.
